@@ -81,10 +81,7 @@ def _wit(r, **kw):
     return d
 
 
-def explained_by_truncation(series, before_waste, keep):
-    """series == trunc(before_waste) * keep, and truncation actually changed something."""
-    t = c08.truncated(before_waste)
-    return bool(close(series, t * keep) and not close(t, before_waste))
+explained_by_truncation = c08.is_truncation_of
 
 
 # =========================================================================== per-job clauses
